@@ -3,7 +3,7 @@
    ONLY statements closed by `exact`, with Print Assumptions beneath each, and an Example per theorem. *)
 From Coq Require Import ZArith List Bool Sorted.
 From Mesa Require Import Generated.Tables Model.Devs Model.DevsSpec
-  Proofs.DevsProofs Proofs.DevsChunkProofs Proofs.DevsStepProofs Proofs.DevsTopProofs Proofs.DevsVizProofs Proofs.DevsVizTopProofs.
+  Proofs.DevsProofs Proofs.DevsChunkProofs Proofs.DevsStepProofs Proofs.DevsTopProofs Proofs.DevsVizProofs Proofs.DevsVizTopProofs Proofs.DevsOrderProofs Proofs.DevsBridge.
 Import ListNotations.
 Open Scope Z_scope.
 
@@ -139,6 +139,37 @@ Print Assumptions C15_step_before_lower_priority.
 Theorem C15_step_priority_is_highest : forall p, gen_prio_value gen_step_prio <= gen_prio_value p.
 Proof. exact step_prio_is_highest. Qed.
 Print Assumptions C15_step_priority_is_highest.
+
+(* ---------------------------------------------------------------- code-level tie (T1) *)
+(* _execute_event of both classes, the run_until loops and run_for, with their conditions TRANSLATED from the working
+   tree (harness/tables/devs_code.py), are the functions of the model (Proofs/DevsBridge.v) *)
+Theorem C15_source_skeleton : gen_devs_skeleton_ok = true.
+Proof. vm_compute. reflexivity. Qed.
+Print Assumptions C15_source_skeleton.
+
+Theorem C15_source_execute_event_is_model : forall cfg st e, exec_event cfg st e = src_exec_event cfg st e.
+Proof. exact exec_event_of_source. Qed.
+Print Assumptions C15_source_execute_event_is_model.
+
+Theorem C15_source_run_for_is_model : forall cfg fuel d st,
+  run_loop cfg fuel (s_time st + d) st = src_run_for cfg fuel d st.
+Proof. exact run_for_of_source. Qed.
+Print Assumptions C15_source_run_for_is_model.
+
+(* under ABMSimulator the generated _execute_event re-schedules model.step exactly when it executes it *)
+Theorem C15_step_resched_of_source : forall cfg st e, c_abm cfg = true ->
+  src_exec_event cfg st e =
+  execute cfg (if e_step e then fst (schedule_relative cfg (set_time st (e_time e)) SCALE gen_step_prio (-1) (-1) true [])
+               else set_time st (e_time e)) e.
+Proof. exact step_resched_of_source. Qed.
+Print Assumptions C15_step_resched_of_source.
+
+(* chunking, stated about the generated loop *)
+Theorem C15_chunking_of_source : forall cfg fuel st t1 t2 st1 l1 st2 l2, inv st -> t1 <= t2 ->
+  src_run_loop cfg fuel t1 st = (st1, l1, true) -> src_run_loop cfg fuel t2 st1 = (st2, l2, true) ->
+  exists n, src_run_loop cfg n t2 st = (st2, l1 ++ l2, true).
+Proof. exact chunking_of_source. Qed.
+Print Assumptions C15_chunking_of_source.
 
 (* ---------------------------------------------------------------- non-vacuity *)
 (* an ABM history: step at tick 1 schedules a HIGH event for now and one for the next tick; a user event at
